@@ -69,6 +69,18 @@ def cases(ctx, zone: str):
             yield {"tz": zone, "version": version, "steps": [
                 ["restore", highest, {"type": 17, "version": "2.0", "children": {}}],
                 ["rx", request + "\n"], ["rx", request + "\n"]]}
+    if zone in ("UTC", "Asia/Kolkata"):
+        for i in range(ctx.pick(400, 20000) // ctx.shard_count):
+            version = [None, *VERSIONS][i % 6]
+            yield {"tz": zone, "version": version, "metric": bool(i % 2),
+                   "steps": histories.rich_history(rng, version, rng.choice([20, 60, 150]))}
+    # the application flips the unit system on the live gateway between config requests
+    for version in [None, *VERSIONS]:
+        for first in (True, False):
+            if ctx.mine():
+                yield {"tz": zone, "version": version, "metric": first, "steps": [
+                    ["rx", "1;255;3;0;6;\n"], ["config", "metric", not first], ["rx", "1;255;3;0;6;\n"],
+                    ["rx", "2;255;3;1;6;x\n"], ["config", "metric", first], ["rx", "1;255;3;0;6;\n"]]}
     for i in range(ctx.pick(100, 40000) // ctx.shard_count):
         version = [None, None, *VERSIONS][i % 7]
         gen = histories.HistoryGen(rng, version)
